@@ -216,6 +216,131 @@ MODS[-2]["code"] += """
 """ % VT32
 H("k10_vertical_u16_x4_w5_o0", "exp", "exp", P_INT)
 
+
+# ------------------------------------------------------------------------------------------------------------------------------
+# floating kernels (i32x1, f32x1..f32x4, vertical_f32): Coefficients built concretely, oracle = the sequential sum in window order
+# ------------------------------------------------------------------------------------------------------------------------------
+FLT = dict(file=D + "mod.rs", name="fv_k10_flt", vis="pub(crate) ", code="""
+    /// window_size weights per window (only the first `size` of each window are meaningful; the rest is a trap value)
+    pub(crate) fn fv_coeffs(window_size: usize, values: &[f64], bounds: &[(u32, u32)]) -> Coefficients {
+        let mut b = Vec::with_capacity(bounds.len());
+        for (start, size) in bounds.iter() {
+            b.push(Bound { start: *start, size: *size });
+        }
+        Coefficients { values: values.to_vec(), window_size, bounds: b }
+    }
+    /// the convolution formula in floating point: the sequential sum in window order, starting from 0.0
+    pub(crate) fn fv_fsum(px: &[f64], ks: &[f64]) -> f64 {
+        let mut ss = 0.0f64;
+        let mut i = 0;
+        while i < ks.len() {
+            ss += px[i] * ks[i];
+            i += 1;
+        }
+        ss
+    }
+    pub(crate) fn fv_same(a: f32, b: f32) -> bool {
+        a == b || (a != a && b != b)
+    }
+    /// r is `ss` rounded to the nearest integer (ties away from zero), saturated to the i32 range, NaN -> 0
+    pub(crate) fn fv_round_sat(ss: f64, r: i32) -> bool {
+        if ss != ss { return r == 0; }
+        if ss >= 2147483647.5 { return r == i32::MAX; }
+        if ss <= -2147483648.5 { return r == i32::MIN; }
+        let d = r as f64 - ss;
+        if d > 0.5 || d < -0.5 { return false; }
+        if d == 0.5 { return ss > 0.0; }
+        if d == -0.5 { return ss < 0.0; }
+        true
+    }
+""")
+TRAP = "1.0e30"
+FHEAD = """
+    use crate::convolution::fv_k10_flt::*;
+    use crate::images::{TypedImage, TypedImageRef};
+    use crate::pixels::*;
+"""
+
+
+def flit(x):
+    s = repr(float(x))
+    return s
+
+
+def coeffs_literal(windows):
+    ws = max(len(w) for (_, w) in windows) + 1
+    vals = []
+    for (_, w) in windows:
+        vals += [flit(v) for v in w] + [TRAP] * (ws - len(w))
+    return "fv_coeffs(%d, &[%s], &[%s])" % (ws, ", ".join(vals), ", ".join("(%d, %d)" % (st, len(w)) for (st, w) in windows))
+
+
+def horiz_flt_run(pix, comp, nch, L, windows, check):
+    """L x 1 source -> len(windows) x 1 destination + spare.  check(dst_expr, sum_expr) -> assertion condition."""
+    px = (lambda e: "%s::new(%s)" % (pix, e[0])) if nch == 1 else (lambda e: "%s::new([%s])" % (pix, ", ".join(e)))
+    get = (lambda a, i, c: "%s[%d].0" % (a, i)) if nch == 1 else (lambda a, i, c: "%s[%d].0[%d]" % (a, i, c))
+    nw = len(windows)
+    src = ", ".join(px(["sp[%d]" % (x * nch + c) for c in range(nch)]) for x in range(L))
+    dst = ", ".join(px(["stale[%d]" % (i * nch + c) for c in range(nch)]) for i in range(nw + 1))
+    asserts = []
+    for w, (st, ks) in enumerate(windows):
+        for c in range(nch):
+            pxs = ", ".join("sp[%d] as f64" % ((st + i) * nch + c) for i in range(len(ks)))
+            asserts.append("        assert!(%s);" % check(get("dst", w, c), "fv_fsum(&[%s], &[%s])" % (pxs, ", ".join(flit(k) for k in ks))))
+    for c in range(nch):
+        asserts.append("        assert!(%s.to_bits() == stale[%d].to_bits());      // spare pixel untouched" % (get("dst", nw, c), nw * nch + c)
+                       if comp == "f32" else "        assert!(%s == stale[%d]);      // spare pixel untouched" % (get("dst", nw, c), nw * nch + c))
+    return """
+    {
+        let sp: [%(comp)s; %(ns)d] = [%(anys)s];
+        let src: [%(pix)s; %(L)d] = [%(src)s];
+        let stale: [%(comp)s; %(nst)d] = [%(anyst)s];
+        let mut dst: [%(pix)s; %(nd)d] = [%(dst)s];
+        let coeffs = %(coeffs)s;
+        {
+            let s = TypedImageRef::new(%(L)d, 1, &src).unwrap();
+            let mut d = TypedImage::from_pixels_slice(%(nw)d, 1, &mut dst).unwrap();
+            horiz_convolution(&s, &mut d, 0, &coeffs);
+        }
+%(asserts)s
+    }
+""" % dict(comp=comp, ns=L * nch, anys=", ".join(["kani::any()"] * (L * nch)), pix=pix, L=L, src=src, nst=(nw + 1) * nch,
+           anyst=", ".join(["kani::any()"] * ((nw + 1) * nch)), nd=nw + 1, dst=dst, coeffs=coeffs_literal(windows), nw=nw,
+           asserts="\n".join(asserts))
+
+
+CHK_F32 = lambda d, e: "fv_same(%s, %s as f32)" % (d, e)
+CHK_I32 = lambda d, e: "fv_round_sat(%s, %s)" % (e, d)
+W_SMOOTH_SHARPEN = [(0, [0.25, 0.5, 0.25]), (1, [-0.125, 1.25, -0.125])]
+W_DIRTY = [(2, [-0.1, 1.2]), (0, [0.3333333333333333, 0.3333333333333333, 0.3333333333333333])]
+W_HUGE = [(0, [1.5, 1.5, -0.75]), (3, [1.0e300])]
+W9 = [(0, [0.0625, 0.0625, 0.125, 0.125, 0.25, 0.125, 0.125, 0.0625, 0.0625]), (2, [-0.125, 1.25, -0.125])]
+
+
+def add_flt_h(tag, pix, comp, nch, case, L, windows, unwind, props, tier=None, extra=""):
+    chk = CHK_F32 if comp == "f32" else CHK_I32
+    name = "k10_%s_%s" % (tag, case)
+    MODS.append(dict(file=D + "%s/native.rs" % tag, name="fv_%s" % name, code=FHEAD + """
+    #[kani::proof]
+    #[kani::unwind(%d)]
+    fn %s() %s
+""" % (unwind, name, horiz_flt_run(pix, comp, nch, L, windows, chk).strip())))
+    H(name, "%s %dx1 -> %dx1, weights %s (window_size one more than the longest window, unused slots hold a trap value %s), ALL pixel values, arbitrary stale destination"
+      % (pix, L, len(windows), windows, TRAP),
+      ("%s horizontal kernel == the sequential f64 sum in window order converted with `as f32`, bit-exact (or both NaN), on every channel" % tag if comp == "f32" else
+       "i32x1 horizontal kernel == the sequential f64 sum in window order, rounded to nearest (ties away from zero) and saturated to i32") +
+      "; weights beyond the window's size unused; spare pixel untouched; every destination pixel assigned; reads in bounds", props, tier=tier)
+
+
+add_flt_h("i32x1", "I32", "i32", 1, "h_smooth_sharpen", 4, W_SMOOTH_SHARPEN, 6, P_FLT)
+add_flt_h("i32x1", "I32", "i32", 1, "h_huge_saturating", 4, W_HUGE, 6, P_FLT, tier="thorough")
+add_flt_h("f32x1", "F32", "f32", 1, "smooth_sharpen", 4, W_SMOOTH_SHARPEN, 10, P_FLT, tier="thorough")
+add_flt_h("f32x1", "F32", "f32", 1, "nine_taps_chunk_and_rest", 10, W9, 11, P_FLT)
+add_flt_h("f32x2", "F32x2", "f32", 2, "smooth_sharpen", 4, W_SMOOTH_SHARPEN, 6, P_FLT)
+add_flt_h("f32x3", "F32x3", "f32", 3, "smooth_sharpen", 4, W_SMOOTH_SHARPEN, 6, P_FLT)
+add_flt_h("f32x4", "F32x4", "f32", 4, "smooth_sharpen", 4, W_SMOOTH_SHARPEN, 6, P_FLT)
+add_flt_h("f32x2", "F32x2", "f32", 2, "dirty_weights", 4, W_DIRTY, 6, P_FLT, tier="thorough")
+
 # ---- experiments (temporary)
 MODS[2]["code"] += """
     fn orc(n: &Normalizer32, chunk: usize, px: &[u16]) -> u16 {
@@ -271,12 +396,14 @@ for x in ("x5", "x6", "x7"):
     H("k10_" + x, "exp", "exp", P_INT)
 
 FUNCTIONS = [dict(file=D + "%s/native.rs" % t, fn="horiz_convolution") for t in ("u8x2", "u8x3", "u16x2", "u16x3", "u16x4")] + [
-    dict(file=VU16, fn="vert_convolution"), dict(file=VU16, fn="convolution_by_u16"), dict(file=VU16, fn="convolution_by_chunks")]
+    dict(file=VU16, fn="vert_convolution"), dict(file=VU16, fn="convolution_by_u16"), dict(file=VU16, fn="convolution_by_chunks")] + [
+    dict(file=D + "%s/native.rs" % t, fn="horiz_convolution") for t in ("i32x1", "f32x1", "f32x2", "f32x3", "f32x4")] + [
+    dict(file=D + "f32x1/native.rs", fn="convolution_by_chunks")]
 
 UNITS = [dict(
     id="K10",
     title="the remaining native kernels (u8x2, u8x3, u16x2..4, vertical u16, i32, f32x1..4, vertical f32) compute the convolution formula; reads inside the window; frame",
     assumptions=["bounded / sampled: 'kernel == formula' is checked on concrete tap tables x ALL pixel values and on concrete pixel rows x ALL tap values "
                  "(SAT does not finish when both are symbolic); sizes, window starts and precision are concrete"],
-    kani=dict(functions=FUNCTIONS, modules=[SUPPORT] + MODS, harnesses=HARNESSES),
+    kani=dict(functions=FUNCTIONS, modules=[SUPPORT, FLT] + MODS, harnesses=HARNESSES),
 )]
